@@ -33,6 +33,7 @@ type loopInfo struct {
 	subject string // what is ranged: field name or type
 	id      string // function + "/" + subject
 	altID   string // function + "/" + subject named without the callers' bindings
+	typeID  string // function + "/" + type of the ranged expression
 	accs    []accStep
 	exits   []loopExit
 	guards  []guard
@@ -415,11 +416,21 @@ func (c *Ctx) loopsIn(d *declInfo) []*loopInfo {
 			}
 			st := n.(ast.Stmt)
 			li := &loopInfo{d: d, stmt: st, body: body, subject: rangeSubject(d, st), nested: depth > 0}
-			li.id = d.name + "/" + li.subject
+			owner := ownerName(d)
+			li.id = owner + "/" + li.subject
 			// the same loop named without looking at the callers (policy rows may use either name)
 			noParamBinding = true
-			li.altID = d.name + "/" + rangeSubject(d, li.stmt)
+			li.altID = owner + "/" + rangeSubject(d, li.stmt)
 			noParamBinding = false
+			// … and by the type of what is ranged
+			if rs, isRange := li.stmt.(*ast.RangeStmt); isRange {
+				if t := d.pkg.TypesInfo.TypeOf(rs.X); t != nil {
+					if tup, isTup := t.(*types.Tuple); isTup && tup.Len() > 0 {
+						t = tup.At(0).Type()
+					}
+					li.typeID = owner + "/" + types.TypeString(t, func(p *types.Package) string { return p.Name() })
+				}
+			}
 			li.accs = accumulateSteps(d, st, body)
 			// exits
 			ast.Inspect(body, func(m ast.Node) bool {
@@ -623,6 +634,10 @@ func (c *Ctx) classifyAtom0(d *declInfo, li *loopInfo, ifs *ast.IfStmt, a ast.Ex
 	if ix := boolSetLookup(d, a); ix != nil {
 		return c.classifyMembership(d, li, ix, !negated, text)
 	}
+	// a slice used as a set: `slices.Contains(seen, k)`
+	if ix := sliceSetLookup(d, a); ix != nil {
+		return c.classifyMembership(d, li, ix, !negated, text)
+	}
 	// comma-ok lookup in the if's init: `_, ok := m[k]`
 	if id, ok := a.(*ast.Ident); ok {
 		as, ok2 := ifs.Init.(*ast.AssignStmt)
@@ -789,7 +804,10 @@ func (c *Ctx) loopTotality(rule string, ds []*declInfo, table map[string]loopPol
 			n++
 			pol, hasPol := table[li.id]
 			if !hasPol {
-				pol = table[li.altID]
+				pol, hasPol = table[li.altID]
+			}
+			if !hasPol && li.typeID != "" {
+				pol = table[li.typeID]
 			}
 			pos := c.P.Pos(li.stmt.Pos())
 			// exits
@@ -1336,6 +1354,16 @@ func (c *Ctx) classifyMembership(d *declInfo, li *loopInfo, ix *ast.IndexExpr, p
 					inserted = append(inserted, types.ExprString(lx.Index))
 				}
 			}
+			// a slice used as a set grows by append
+			if len(s.Lhs) == 1 && len(s.Rhs) == 1 && types.ExprString(s.Lhs[0]) == mexpr {
+				if ce, isCall := s.Rhs[0].(*ast.CallExpr); isCall {
+					if id, isId := ce.Fun.(*ast.Ident); isId && id.Name == "append" && len(ce.Args) > 1 && types.ExprString(ce.Args[0]) == mexpr {
+						for _, a := range ce.Args[1:] {
+							inserted = append(inserted, types.ExprString(a))
+						}
+					}
+				}
+			}
 		}
 		return true
 	})
@@ -1597,4 +1625,18 @@ func paramSubject(d *declInfo, o types.Object) string {
 		subj = sj
 	}
 	return subj
+}
+
+// sliceSetLookup: e is slices.Contains(S, k) — membership of k in a slice used as a set; returned
+// as the index expression S[k] so that it is classified like a map lookup.
+func sliceSetLookup(d *declInfo, e ast.Expr) *ast.IndexExpr {
+	ce, ok := e.(*ast.CallExpr)
+	if !ok || len(ce.Args) != 2 {
+		return nil
+	}
+	f, _ := typeutil.Callee(d.pkg.TypesInfo, ce).(*types.Func)
+	if f == nil || f.FullName() != "slices.Contains" {
+		return nil
+	}
+	return &ast.IndexExpr{X: ce.Args[0], Index: ce.Args[1], Lbrack: ce.Lparen, Rbrack: ce.Rparen}
 }
